@@ -22,6 +22,11 @@ use crate::metadata::{calc_metadata, calc_metadata_ap_change_only};
 
 fn pipeline(program: &Program) -> String {
     let info = match ProgramRegistryInfo::new(program) { Ok(i) => i, Err(_) => return "registry Err".into() };
+    // C14: "calc_metadata (both solvers)": the equation solvers on programs small enough for them
+    if program.statements.len() <= 1500 {
+        let eq = crate::metadata::MetadataComputationConfig { linear_gas_solver: false, linear_ap_change_solver: false, ..Default::default() };
+        if let Ok(m) = calc_metadata(program, &info, eq) { let _ = compile(program, &info, &m, SierraToCasmConfig { gas_usage_check: true, max_bytecode_size: usize::MAX }); }
+    }
     let (md, gas) = match calc_metadata(program, &info, Default::default()) {
         Ok(m) => (m, true),
         Err(_) => match calc_metadata_ap_change_only(program, &info) { Ok(m) => (m, false), Err(_) => return "metadata Err".into() },
